@@ -14,6 +14,7 @@ mod eg9;
 mod eg20;
 mod egt;
 mod eg14;
+mod egr;
 
 fn main() {
     common::install_panic_hook();
@@ -36,6 +37,7 @@ fn main() {
         "eg20" => eg20::main(&a),
         "egt" => egt::main(&a),
         "eg14" => eg14::main(&a),
+        "egr" => egr::main(&a),
         "features" => {
             println!("checks={} explanations={}", cfg!(feature = "checks"), cfg!(feature = "explanations"));
         }
